@@ -60,6 +60,14 @@ theorem getD_diffs (e : List ℝ) : ∀ i, i + 1 < e.length →
         simp only [diffs, List.getD_cons_succ] at this ⊢
         exact this
 
+theorem length_midEdges' (g : List ℝ) : (midEdges g).length = g.length - 1 := by
+  induction g with
+  | nil => rfl
+  | cons a t ih =>
+    cases t with
+    | nil => rfl
+    | cons b t' => simp only [midEdges, List.length_cons] at ih ⊢; omega
+
 /-- the edges of `compute_bin_edges`, element by element -/
 theorem getD_edges (g : List ℝ) (hn : 2 ≤ g.length) (j : Nat) (hj : j ≤ g.length) :
     (computeBinEdges g).1.getD j 0 =
@@ -81,13 +89,301 @@ theorem getD_edges (g : List ℝ) (hn : 2 ≤ g.length) (j : Nat) (hj : j ≤ g.
       rw [h2]; ring
     · rw [if_neg hk, List.getD_append _ _ _ _ (by rw [hlen]; omega), getD_midEdges g k (by omega)]
       simp
+
+theorem spacing_pos (g : List ℝ) (hg : g.Pairwise (· < ·)) (i : Nat) (hi : i + 1 < g.length) :
+    0 < spacing g i := by
+  unfold spacing
+  rw [List.getD_eq_getElem _ _ hi, List.getD_eq_getElem _ _ (by omega : i < g.length)]
+  have := List.pairwise_iff_getElem.1 hg i (i + 1) (by omega) hi (by omega)
+  linarith
+
+theorem length_edges (g : List ℝ) : (computeBinEdges g).1.length = (g.length - 1) + 2 := by
+  unfold computeBinEdges
+  simp only [List.length_cons, List.length_append, List.length_nil]
+  rw [length_midEdges']
+
+/-- the mid-point widths of a strictly increasing grid, element by element:
+    `w_0 = d_0`, `w_{n-1} = d_{n-2}`, `w_i = (d_{i-1} + d_i)/2` in between -/
+theorem getD_widths (g : List ℝ) (hn : 2 ≤ g.length) (hg : g.Pairwise (· < ·)) (i : Nat) (hi : i < g.length) :
+    (computeBinEdges g).2.getD i 0 =
+      (spacingL g i + (if i + 1 = g.length then spacing g (g.length - 2) else spacing g i)) / 2 := by
+  have hW : (computeBinEdges g).2 = (diffs (computeBinEdges g).1).map absv := rfl
+  have h0 : (0 : ℝ) = absv 0 := by rw [absv_eq_abs, abs_zero]
+  rw [hW]
+  conv_lhs => rw [h0, List.getD_map]
+  rw [getD_diffs _ i (by rw [length_edges]; omega), getD_edges g hn (i + 1) (by omega),
+    getD_edges g hn i (by omega), absv_eq_abs]
+  unfold spacingL
+  rw [if_neg (by omega : ¬ i + 1 = 0)]
+  by_cases h1 : i + 1 = g.length
+  · have hi0 : i ≠ 0 := by omega
+    have hil : i ≠ g.length := by omega
+    rw [if_pos h1, if_neg hi0, if_neg hil, if_pos h1, if_neg hi0]
+    have e1 : g.length - 1 = i := by omega
+    have e2 : g.length - 2 = i - 1 := by omega
+    rw [e1, e2]
+    have hp := spacing_pos g hg (i - 1) (by omega)
+    have : g.getD i 0 = g.getD (i - 1) 0 + spacing g (i - 1) := by
+      unfold spacing
+      have : i - 1 + 1 = i := by omega
+      rw [this]; ring
+    rw [this, abs_of_pos (by linarith)]
+    ring
+  · rw [if_neg h1, if_neg h1]
+    simp only [Nat.add_sub_cancel]
+    by_cases hi0 : i = 0
+    · subst hi0
+      simp only [if_true]
+      have hp := spacing_pos g hg 0 (by omega)
+      rw [abs_of_pos (by linarith)]
+      ring
+    · have hil : i ≠ g.length := by omega
+      rw [if_neg hi0, if_neg hil, if_neg hi0]
+      have hp1 := spacing_pos g hg (i - 1) (by omega)
+      have hp2 := spacing_pos g hg i (by omega)
+      have : g.getD i 0 = g.getD (i - 1) 0 + spacing g (i - 1) := by
+        unfold spacing
+        have : i - 1 + 1 = i := by omega
+        rw [this]; ring
+      rw [this, abs_of_pos (by linarith)]
+      ring
+
+theorem withWidths_map (f : ℝ → ℝ → ℝ) (rows : List (Row ℝ)) (ws : List ℝ) :
+    (withWidths rows ws).map (fun r => f r.c r.w) = List.zipWith f (rows.map Row.c) ws := by
+  unfold withWidths
+  induction rows generalizing ws with
+  | nil => simp
+  | cons r t ih =>
+    cases ws with
+    | nil => simp
+    | cons w ws' => simp only [List.zipWith_cons_cons, List.map_cons, ih]
+
+theorem length_widths (g : List ℝ) (hn : 1 ≤ g.length) : (computeBinEdges g).2.length = g.length := by
+  have hW : (computeBinEdges g).2 = (diffs (computeBinEdges g).1).map absv := rfl
+  rw [hW, List.length_map, length_diffs', length_edges]
+  omega
 where
-  length_midEdges' (g : List ℝ) : (midEdges g).length = g.length - 1 := by
-    induction g with
+  length_diffs' (e : List ℝ) : (diffs e).length = e.length - 1 := by
+    induction e with
     | nil => rfl
     | cons a t ih =>
       cases t with
       | nil => rfl
-      | cons b t' => simp only [midEdges, List.length_cons] at ih ⊢; omega
+      | cons b t' => simp only [diffs, List.length_cons] at ih ⊢; omega
+
+/-- adjacent comparison of the symmetrised mid-point bins -/
+theorem midpoint_adjacent (g : List ℝ) (hn : 2 ≤ g.length) (hg : g.Pairwise (· < ·))
+    (hok : MidpointSpacingOK g) (i : Nat) (hi : i + 1 < g.length) :
+    g.getD i 0 - (computeBinEdges g).2.getD i 0 / 2 ≤ g.getD (i + 1) 0 - (computeBinEdges g).2.getD (i + 1) 0 / 2 ∧
+    g.getD i 0 + (computeBinEdges g).2.getD i 0 / 2 ≤ g.getD (i + 1) 0 + (computeBinEdges g).2.getD (i + 1) 0 / 2 := by
+  rw [getD_widths g hn hg i (by omega), getD_widths g hn hg (i + 1) hi]
+  obtain ⟨h1, h2⟩ := hok i hi
+  rw [if_neg (by omega : ¬ i + 1 = g.length)]
+  have hL : spacingL g (i + 1) = spacing g i := by
+    unfold spacingL; rw [if_neg (by omega)]; simp
+  have hR : (if i + 1 + 1 = g.length then spacing g (g.length - 2) else spacing g (i + 1)) = spacingR g i := by
+    unfold spacingR
+    by_cases h : i + 2 < g.length
+    · rw [if_pos h, if_neg (by omega)]
+    · rw [if_neg h, if_pos (by omega)]
+      congr 1; omega
+  rw [hL, hR]
+  have hg1 : g.getD (i + 1) 0 = g.getD i 0 + spacing g i := by unfold spacing; ring
+  rw [hg1]
+  constructor <;> linarith
+
+/-- on rows already sorted by (distinct) centre, `nativeBins false` only attaches the mid-point widths -/
+theorem nativeBins_false_sorted (rows : List (Row ℝ)) (hg : (rows.map Row.c).Pairwise (· < ·)) :
+    nativeBins false rows = withWidths rows (computeBinEdges (rows.map Row.c)).2 := by
+  have hs : rows.Pairwise (fun u v => u.c ≤ v.c) := by
+    rw [List.pairwise_map] at hg
+    exact hg.imp le_of_lt
+  unfold nativeBins
+  simp only [Bool.false_eq_true, if_false]
+  rw [sortBy_of_sorted Row.c rows hs]
+
+theorem pairwise_le_zipWith (f : ℝ → ℝ → ℝ) (g ws : List ℝ) (hl : ws.length = g.length)
+    (h : ∀ i, i + 1 < g.length → f (g.getD i 0) (ws.getD i 0) ≤ f (g.getD (i + 1) 0) (ws.getD (i + 1) 0)) :
+    (List.zipWith f g ws).Pairwise (· ≤ ·) := by
+  apply List.isChain_iff_pairwise.1
+  rw [List.isChain_iff_getElem]
+  intro i hi
+  have hlen : (List.zipWith f g ws).length = g.length := by rw [List.length_zipWith, hl]; omega
+  rw [hlen] at hi
+  rw [List.getElem_zipWith, List.getElem_zipWith]
+  have := h i hi
+  rw [List.getD_eq_getElem _ _ (by omega : i < g.length), List.getD_eq_getElem _ _ (by omega : i < ws.length),
+    List.getD_eq_getElem _ _ hi, List.getD_eq_getElem _ _ (by omega : i + 1 < ws.length)] at this
+  exact this
+
+/-- **midpoint_bins_ordered**: mid-point widths on a strictly increasing grid whose successive spacings
+    satisfy the local condition give ordered bins -/
+theorem midpoint_ordered (rows : List (Row ℝ)) (hn : 2 ≤ rows.length)
+    (hg : (rows.map Row.c).Pairwise (· < ·)) (hok : MidpointSpacingOK (rows.map Row.c)) :
+    OrderedBins (nativeBins false rows) := by
+  rw [nativeBins_false_sorted rows hg]
+  set g := rows.map Row.c with hgdef
+  have hn' : 2 ≤ g.length := by rw [hgdef, List.length_map]; exact hn
+  have hl := length_widths g (by omega)
+  have hadj := midpoint_adjacent g hn' hg hok
+  constructor
+  · have : (withWidths rows (computeBinEdges g).2).Pairwise (fun r r' => r.lo ≤ r'.lo) ↔
+        ((withWidths rows (computeBinEdges g).2).map (fun r => r.c - r.w / 2)).Pairwise (· ≤ ·) := by
+      rw [List.pairwise_map]; rfl
+    rw [this, withWidths_map (fun c w => c - w / 2)]
+    exact pairwise_le_zipWith _ g _ hl (fun i hi => (hadj i hi).1)
+  · have : (withWidths rows (computeBinEdges g).2).Pairwise (fun r r' => r.hi ≤ r'.hi) ↔
+        ((withWidths rows (computeBinEdges g).2).map (fun r => r.c + r.w / 2)).Pairwise (· ≤ ·) := by
+      rw [List.pairwise_map]; rfl
+    rw [this, withWidths_map (fun c w => c + w / 2)]
+    exact pairwise_le_zipWith _ g _ hl (fun i hi => (hadj i hi).2)
+
+/-- mid-point widths are non-negative (they are absolute values) -/
+theorem midpoint_widths_nonneg (rows : List (Row ℝ)) : ∀ r ∈ nativeBins false rows, r.lo ≤ r.hi := by
+  intro r hr
+  unfold nativeBins at hr
+  simp only [Bool.false_eq_true, if_false] at hr
+  unfold withWidths at hr
+  obtain ⟨i, hi, rfl⟩ := List.mem_iff_getElem.1 hr
+  rw [List.getElem_zipWith]
+  have hw : (computeBinEdges (List.map Row.c (sortBy Row.c rows))).2 =
+      (diffs (computeBinEdges (List.map Row.c (sortBy Row.c rows))).1).map absv := rfl
+  simp only [Row.lo, Row.hi]
+  have : 0 ≤ (computeBinEdges (List.map Row.c (sortBy Row.c rows))).2[i]'(by
+      rw [List.length_zipWith] at hi; omega) := by
+    simp only [hw, List.getElem_map, absv_eq_abs]
+    exact abs_nonneg _
+  linarith
+
+/-! ### the named grid families -/
+
+/-- (a) constant spacing -/
+theorem linear_spacing_ok (g : List ℝ) (d : ℝ) (hd0 : 0 ≤ d) (hd : ∀ i, i + 1 < g.length → spacing g i = d) :
+    MidpointSpacingOK g := by
+  intro i hi
+  have h0 : spacing g i = d := hd i hi
+  have hL : spacingL g i = d := by
+    unfold spacingL; split
+    · exact h0
+    · exact hd (i - 1) (by omega)
+  have hR : spacingR g i = d := by
+    unfold spacingR; split
+    · exact hd (i + 1) (by omega)
+    · exact h0
+  rw [h0, hL, hR]
+  constructor <;> linarith
+
+theorem geometric_pos (g : List ℝ) (r : ℝ) (h0 : 0 < g.getD 0 0) (hr : 0 < r)
+    (hgeo : ∀ i, i + 1 < g.length → g.getD (i + 1) 0 = r * g.getD i 0) :
+    ∀ i, i < g.length → 0 < g.getD i 0 := by
+  intro i
+  induction i with
+  | zero => intro _; exact h0
+  | succ k ih =>
+    intro hk
+    rw [hgeo k hk]
+    exact mul_pos hr (ih (by omega))
+
+/-- (b) geometric spacing `g[i+1] = r·g[i]` with `1 < r ≤ 4` (logarithmic grids; constant resolving power
+    `R`: `r = 1 + 1/R`) -/
+theorem geometric_spacing_ok (g : List ℝ) (r : ℝ) (h0 : 0 < g.getD 0 0) (hr1 : 1 < r) (hr4 : r ≤ 4)
+    (hgeo : ∀ i, i + 1 < g.length → g.getD (i + 1) 0 = r * g.getD i 0) : MidpointSpacingOK g := by
+  have hr0 : 0 < r := by linarith
+  have ht : 0 < r - 1 := by linarith
+  have hpos := geometric_pos g r h0 hr0 hgeo
+  have hsp : ∀ i, i + 1 < g.length → spacing g i = (r - 1) * g.getD i 0 := by
+    intro i hi; unfold spacing; rw [hgeo i hi]; ring
+  intro i hi
+  have hx := hpos i (by omega)
+  have hd : spacing g i = (r - 1) * g.getD i 0 := hsp i hi
+  have hR : spacingR g i = (r - 1) * g.getD i 0 ∨ spacingR g i = (r - 1) * (r * g.getD i 0) := by
+    unfold spacingR
+    split
+    · right; rw [hsp (i + 1) (by omega), hgeo i hi]
+    · left; exact hd
+  have hL : spacingL g i = (r - 1) * g.getD i 0 ∨
+      ∃ y, 0 < y ∧ g.getD i 0 = r * y ∧ spacingL g i = (r - 1) * y := by
+    unfold spacingL
+    split
+    · left; exact hd
+    · right
+      refine ⟨g.getD (i - 1) 0, hpos (i - 1) (by omega), ?_, hsp (i - 1) (by omega)⟩
+      have := hgeo (i - 1) (by omega)
+      have e : i - 1 + 1 = i := by omega
+      rw [e] at this; exact this
+  rw [hd]
+  set x := g.getD i 0 with hxdef
+  have htx : 0 < (r - 1) * x := mul_pos ht hx
+  rcases hR with hR | hR <;> rcases hL with hL | ⟨y, hy, hxy, hL⟩ <;> rw [hR, hL]
+  · constructor <;> nlinarith
+  · have hty : 0 < (r - 1) * y := mul_pos ht hy
+    rw [hxy]
+    constructor <;> nlinarith [mul_pos hty hr0]
+  · constructor <;> nlinarith [mul_pos htx hr0]
+  · have hty : 0 < (r - 1) * y := mul_pos ht hy
+    rw [hxy]
+    constructor
+    · nlinarith [mul_nonneg (mul_pos hty hr0).le (sub_nonneg.2 hr4), mul_pos hty hr0]
+    · nlinarith [mul_pos (mul_pos hty hr0) hr0, mul_pos hty hr0]
+
+theorem pairwise_lt_of_adjacent (g : List ℝ) (h : ∀ i, i + 1 < g.length → g.getD i 0 < g.getD (i + 1) 0) :
+    g.Pairwise (· < ·) := by
+  apply List.isChain_iff_pairwise.1
+  rw [List.isChain_iff_getElem]
+  intro i hi
+  have := h i hi
+  rw [List.getD_eq_getElem _ _ (by omega : i < g.length), List.getD_eq_getElem _ _ hi] at this
+  exact this
+
+theorem linear_increasing (g : List ℝ) (d : ℝ) (hd0 : 0 < d) (hd : ∀ i, i + 1 < g.length → spacing g i = d) :
+    g.Pairwise (· < ·) :=
+  pairwise_lt_of_adjacent g (fun i hi => by have := hd i hi; unfold spacing at this; linarith)
+
+theorem geometric_increasing (g : List ℝ) (r : ℝ) (h0 : 0 < g.getD 0 0) (hr1 : 1 < r)
+    (hgeo : ∀ i, i + 1 < g.length → g.getD (i + 1) 0 = r * g.getD i 0) : g.Pairwise (· < ·) :=
+  pairwise_lt_of_adjacent g (fun i hi => by
+    have hp := geometric_pos g r h0 (by linarith) hgeo i (by omega)
+    rw [hgeo i hi]; nlinarith)
+
+theorem length_nativeBins_false (rows : List (Row ℝ)) (hn : 1 ≤ rows.length) :
+    (nativeBins false rows).length = rows.length := by
+  unfold nativeBins withWidths
+  simp only [Bool.false_eq_true, if_false]
+  have hl : (sortBy Row.c rows).length = rows.length := (sortBy_perm Row.c rows).length_eq
+  rw [List.length_zipWith, length_widths _ (by rw [List.length_map, hl]; exact hn), List.length_map, hl]
+  omega
+
+/-- linear grids: the symmetrised mid-point bins are exactly contiguous -/
+theorem linear_contiguous (g : List ℝ) (hn : 2 ≤ g.length) (d : ℝ) (hd0 : 0 < d)
+    (hd : ∀ i, i + 1 < g.length → spacing g i = d) (i : Nat) (hi : i + 1 < g.length) :
+    g.getD i 0 + (computeBinEdges g).2.getD i 0 / 2 = g.getD (i + 1) 0 - (computeBinEdges g).2.getD (i + 1) 0 / 2 := by
+  have hg := linear_increasing g d hd0 hd
+  have hw : ∀ k, k < g.length → (computeBinEdges g).2.getD k 0 = d := by
+    intro k hk
+    rw [getD_widths g hn hg k hk]
+    have hL : spacingL g k = d := by
+      unfold spacingL; split
+      · exact hd k (by omega)
+      · exact hd (k - 1) (by omega)
+    have hR : (if k + 1 = g.length then spacing g (g.length - 2) else spacing g k) = d := by
+      split
+      · exact hd _ (by omega)
+      · exact hd k (by omega)
+    rw [hL, hR]; ring
+  rw [hw i (by omega), hw (i + 1) hi]
+  have := hd i hi
+  unfold spacing at this
+  linarith
+
+/-- the code equals the overlap-weighted mean on mid-point bins whose spacings satisfy the local condition -/
+theorem flux_midpoint_eq_spec (val : Row ℝ → ℝ) (rows : List (Row ℝ)) (a b : ℝ) (hn : 2 ≤ rows.length)
+    (hg : (rows.map Row.c).Pairwise (· < ·)) (hok : MidpointSpacingOK (rows.map Row.c)) (hab : a < b)
+    (hpos : 0 < sumL ((nativeBins false rows).map (overlap a b))) :
+    fluxBinVal val (nativeBins false rows) a b = overlapMeanSpec val (nativeBins false rows) a b := by
+  have hne : nativeBins false rows ≠ [] := by
+    intro h
+    have := length_nativeBins_false rows (by omega)
+    rw [h] at this; simp at this; omega
+  exact flux_eq_spec val _ a b hne (midpoint_ordered rows hn hg hok) (midpoint_widths_nonneg rows) hab hpos
 
 end Taurex.Binning
